@@ -31,7 +31,7 @@ func (w *World) childEvals(fn *ssa.Function) []childEval {
 		}
 		ce := childEval{Call: c, Fn: fn, ChildIdx: -1}
 		ctx := c.Call.Args[0]
-		if p, ok := ctx.(*ssa.Parameter); ok && p == fn.Params[0] {
+		if p, ok := ctx.(*ssa.Parameter); ok && p == ctxParam(fn) {
 			ce.OwnCtx = true
 		} else if al, ok := ctx.(*ssa.Alloc); ok {
 			for _, st := range storesInto(al) {
@@ -204,7 +204,7 @@ func (w *World) pairHelperOf(fn *ssa.Function) *pairHelper {
 				}
 				al, _ := fa.X.(*ssa.Alloc)
 				e, ok := byAlloc[al]
-				if !ok && fa.X == ssa.Value(fn.Params[0]) {
+				if !ok && fa.X == ssa.Value(ctxParam(fn)) {
 					// the operand was evaluated in the helper's own context (not a copy: `indep` is already false)
 					n := 0
 					for _, ev := range evals {
@@ -335,7 +335,15 @@ func (w *World) operandsOf(h *ssa.Function) (left, right ssa.Value, ph *pairHelp
 			return
 		}
 		if p := w.pairHelperOf(sc); p != nil {
-			if len(h.Params) >= 2 && len(c.Call.Args) >= 2 && c.Call.Args[0] == ssa.Value(h.Params[0]) && c.Call.Args[1] == ssa.Value(h.Params[1]) {
+			// (handed the handler's own context and expression: for a method used as a handler they follow the receiver)
+			cp := ctxParam(h)
+			var ep *ssa.Parameter
+			for i, x := range h.Params {
+				if x == cp && i+1 < len(h.Params) {
+					ep = h.Params[i+1]
+				}
+			}
+			if ep != nil && len(c.Call.Args) >= 2 && c.Call.Args[0] == ssa.Value(cp) && c.Call.Args[1] == ssa.Value(ep) {
 				call, ph = c, p
 			}
 		}
@@ -431,7 +439,7 @@ func (w *World) inPlaceEvaluator(e *ssa.Function, r *Roles) (int, bool) {
 			return
 		}
 		if ld, ok := ret.Results[0].(*ssa.UnOp); ok {
-			if fa, ok := ld.X.(*ssa.FieldAddr); ok && fa.Field == r.CtxResultField && fa.X == ssa.Value(e.Params[0]) {
+			if fa, ok := ld.X.(*ssa.FieldAddr); ok && fa.Field == r.CtxResultField && fa.X == ssa.Value(ctxParam(e)) {
 				returnsOwn = true
 			}
 		}
